@@ -18,6 +18,7 @@ import Cte.Model.Damage
 import Cte.Model.Bdl
 import Cte.Model.Convert
 import Cte.Model.Placement
+import Cte.Model.HulcAux
 import Cte.Gen.Schema
 open Cte
 
@@ -396,6 +397,40 @@ def opPlacement (req : J) : J :=
                 | some cs => J.arr (cs.map (fun c => J.arr [J.ofRat c.x 6, J.ofRat c.y 6, J.ofRat c.z 6]))
                 | none => J.null)])))]
 
+namespace AuxIO
+open Cte.Aux Cte.Bdl
+def js (s : Str) : J := J.str (String.ofList s)
+def kygJ (k : Kyg) : J :=
+  J.obj [("k", match k.k with | some n => jNum n | none => J.null),
+         ("windows", J.arr (k.windows.map (fun w => J.obj [("name", js w.name), ("orientation", js w.orientation), ("a", jNum w.a), ("u", jNum w.u),
+            ("ff_pct", jNum w.ff), ("extra", match w.extra with
+              | some (a, b, c, d, cons) => J.arr [jNum a, jNum b, jNum c, jNum d, js cons]
+              | none => J.null)]))),
+         ("walls", J.arr (k.walls.map (fun w => J.obj [("name", js w.name), ("a", jNum w.a), ("u", jNum w.u), ("btrx", jNum w.btrx),
+            ("extra", match w.extra with | some (a, b, c) => J.arr [js a, js b, js c] | none => J.null)]))),
+         ("tbs", J.arr (k.tbs.map (fun t => J.obj [("name", js t.name), ("l", jNum t.l), ("psi", jNum t.psi), ("sisdim", js t.sisdim)]))),
+         ("hfactors", J.arr (k.hfactors.map jNum)),
+         ("gains", J.arr (k.gains.map (fun g => J.obj [("name", js g.name), ("azimuth", jNum g.azimuth), ("htot", jNum g.htot), ("h3", jNum g.h3)])))]
+def tblJ (t : Tbl) : J :=
+  J.obj [("elements", J.arr (t.elements.map (fun kv => J.obj [("key", js kv.1), ("name", js kv.2.name), ("nums", J.arr (kv.2.nums.map jNum)),
+            ("type", js kv.2.etype), ("id_surf", J.ofInt kv.2.idSurf), ("id_space", J.ofInt kv.2.idSpace)]))),
+         ("spaces", J.arr (t.spaces.map (fun kv => J.obj [("key", js kv.1), ("name", js kv.2.name), ("id_space", J.ofInt kv.2.idSpace),
+            ("mult", J.ofInt kv.2.mult), ("area", jNum kv.2.area), ("qint", jNum kv.2.qint)])))]
+end AuxIO
+
+/-- ops `kyg` / `tbl`: the auxiliary HULC files -/
+def opKyg (req : J) : J :=
+  let text := match req.get? "text" with | some (J.str s) => s | _ => ""
+  match Aux.kygParse text.toList with
+  | .ok k => J.obj [("ok", AuxIO.kygJ k)]
+  | .error e => J.obj [("err", J.str e)]
+
+def opTbl (req : J) : J :=
+  let text := match req.get? "text" with | some (J.str s) => s | _ => ""
+  match Aux.tblParse text.toList with
+  | .ok t => J.obj [("ok", AuxIO.tblJ t)]
+  | .error e => J.obj [("err", J.str e)]
+
 /-- op `occupancy`: yearly occupied time and mean internal load -/
 def opOccupancy (m : Model) : J :=
   J.obj [("hours_in_use", J.ofNat (hoursInUse m)), ("average_load", jr (averageLoad (Fns.approx 0) m)),
@@ -457,6 +492,8 @@ def handle (line : String) : String :=
       | some (J.str "bdlblocks") => opBdlBlocks req
       | some (J.str "skelconvert") => opSkelConvert req
       | some (J.str "placement") => opPlacement req
+      | some (J.str "kyg") => opKyg req
+      | some (J.str "tbl") => opTbl req
       | some (J.str "indicators") => withModel req (opIndicators req)
       | some (J.str "classify") => opClassify req
       | some (J.str "bvh") => opBvh req
